@@ -114,6 +114,10 @@ m("c06-router-to-a-new-dispatcher", "C06", "app/app.go",
   "\tapp.AuthzKeeper = authzkeeper.NewKeeper(keys[authzkeeper.StoreKey], appCodec, app.MsgServiceRouter(), app.AccountKeeper)\n\tverifKeepRouter(app.MsgServiceRouter())\n",
   "router-receiver", "an untabled function receives the message service router",
   extra=[("func (app *Haqq) setAnteHandler(", "func verifKeepRouter(_ *baseapp.MsgServiceRouter) {}\n\nfunc (app *Haqq) setAnteHandler(")])
+m("c06-grant-grantable", "C06", "app/ante/handler_options.go",
+  "\t\t\tsdk.MsgTypeURL(&authz.MsgGrant{}),\n\t\t),\n\t\tante.NewSetUpContextDecorator(),\n\t\tante.NewValidateBasicDecorator(),\n\t\tante.NewTxTimeoutHeightDecorator(),\n\t\tcosmosante.NewMinGasPriceDecorator",
+  "\t\t),\n\t\tante.NewSetUpContextDecorator(),\n\t\tante.NewValidateBasicDecorator(),\n\t\tante.NewTxTimeoutHeightDecorator(),\n\t\tcosmosante.NewMinGasPriceDecorator", "grant-is-not-grantable",
+  "the EIP-712 route's limiter no longer bars grants of MsgGrant")
 m("c06-eip712-no-reject", "C06", "app/ante/handler_options.go",
   "func newLegacyCosmosAnteHandlerEip712(options HandlerOptions) sdk.AnteHandler {\n\treturn sdk.ChainAnteDecorators(\n\t\tcosmosante.RejectMessagesDecorator{}, // reject MsgEthereumTxs\n",
   "func newLegacyCosmosAnteHandlerEip712(options HandlerOptions) sdk.AnteHandler {\n\treturn sdk.ChainAnteDecorators(\n", "newLegacyCosmosAnteHandlerEip712#reject-first")
@@ -204,6 +208,9 @@ m("c16-sdk-msgserver-in-precompile", "C16", "precompiles/staking/tx.go",
 m("c16-redelegate-to-delegate", "C16", "precompiles/distribution/tx.go",
   "res, err := msgSrv.WithdrawDelegatorReward(sdk.WrapSDKContext(ctx), msg)", "res, err := msgSrv.WithdrawDelegatorReward(sdk.WrapSDKContext(ctx), msg)\n\tif err == nil {\n\t\t_, err = msgSrv.FundCommunityPool(sdk.WrapSDKContext(ctx), nil)\n\t}", "native-dispatch")
 
+m("c07-precompile-repanics", "C07", "precompiles/common/precompile.go",
+  "\t\t\t\t*err = fmt.Errorf(\"precompile panicked: %v\", r)\n", "\t\t\t\tpanic(r)\n", "recovered-panics-stay-recovered",
+  "the precompiles' deferred handler panics again for everything but out-of-gas")
 # ---------------- C08 ----------------
 m("c08-locked-uncapped-delegated", "C08", "x/vesting/types/clawback_vesting_account.go",
   "lockedUpVestedDelegatedCoins := va.DelegatedFree.Add(va.DelegatedVesting...).Min(va.GetLockedUpVestedCoins(blockTime))",
@@ -315,6 +322,12 @@ m("c10-bankwrapper-wrap-nil", "C10", "x/bank/keeper/msg_server.go",
   "\tif evmToBalanceTokenAfter == nil {\n\t\treturn errorsmod.Wrap(err, \"failed to retrieve receiver's balance\")",
   "subUnlockedERC20Tokens#wrap-nil", "same Wrap(nil) shape in a function without defer (control for c10-wrap-nil-balance)")
 
+m("c10-ibc-receive-converts-for-long-address", "C10", "x/erc20/keeper/ibc_callbacks.go",
+  "\tif len(recipient) != common.AddressLength {\n\t\treturn ack\n\t}\n", "", "OnRecvPacket#ConvertCoin-1-needs-a-20-byte-holder",
+  "the IBC receive converts for receivers of any address length")
+m("c10-bank-send-converts-for-long-address", "C10", "x/bank/keeper/msg_server.go",
+  "\tif !k.ek.IsERC20Enabled(ctx) || len(from) != common.AddressLength || len(to) != common.AddressLength {", "\tif !k.ek.IsERC20Enabled(ctx) || len(to) != common.AddressLength {", "needs-a-20-byte-holder",
+  "the bank send wrapper converts for senders of any address length")
 # ---------------- C11 ----------------
 m("c11-mint-locked-balance", "C11", "x/liquidvesting/keeper/msg_server.go",
   "liquidTokenCoin := sdk.NewCoin(liquidDenom.GetBaseDenom(), msg.Amount.Amount)", "liquidTokenCoin := sdk.NewCoin(liquidDenom.GetBaseDenom(), lockedBalance.Amount)",
@@ -712,8 +725,7 @@ m("c19-export-stops-at-hole", "C19", "x/liquidvesting/keeper/denom.go",
   "runs-to-completion", "the export loop can stop before the last record")
 m("c20-startup-touches-state", "C20", "app/app.go",
   "\tapp.ScopedIBCKeeper = scopedIBCKeeper\n", "\tif loadLatest && app.LastBlockHeight() > 0 {\n\t\t_ = app.AccountKeeper.GetModuleAccount(app.BaseApp.NewUncachedContext(true, tmproto.Header{Height: app.LastBlockHeight()}), ucdaotypes.ModuleName)\n\t}\n\tapp.ScopedIBCKeeper = scopedIBCKeeper\n",
-  "creates-context", "a start-up routine reads (and creates) module accounts outside any block",
-  extra=[("\tabci \"github.com/cometbft/cometbft/abci/types\"\n", "\tabci \"github.com/cometbft/cometbft/abci/types\"\n\ttmproto \"github.com/cometbft/cometbft/proto/tendermint/types\"\n")])
+  "creates-context", "a start-up routine reads (and creates) module accounts outside any block")
 
 # ---------------- rules added from the wave-5 seeds ----------------
 m("c01-basefee-step-in-place", "C01", "x/feemarket/keeper/eip1559.go",
